@@ -57,6 +57,9 @@ def qt():
 
 KINDS = ("pos", "pos", "signed", "signed", "complex", "complex", "pos0")
 KINDS_DENSE = ("pos", "signed", "signed", "complex", "complex")
+# hyper flavours also get strongly varying positive data (exp(1.2 * normal)): an error in how a label is summed over is
+# second order in the value for near-uniform data
+KINDS_HYPER = KINDS + ("posvar", "posvar")
 
 
 @st.composite
@@ -85,6 +88,10 @@ def s_net(draw, tier="quick", hyper=False, phys="none", uniform=False, min_n=2, 
     if groups:
         # merge[i-1]: tensor i joins the region of the tensor it was attached to (regions = connected sub-trees)
         net["merge"] = [draw(st.integers(0, 2)) == 0 for _ in range(1, n)]
+    if hyper:
+        # dangle[i] > 0: tensor i also carries a label d<i> that sits on no other tensor (a rank-1 hyper edge / leaf
+        # variable of the factor graph, as in the k-SAT networks of quimb's own tests): the hyper flavours sum over it
+        net["dangle"] = [draw(st.sampled_from([0, 0, 0, 2, 3, 4])) for _ in range(n)]
     return net
 
 
@@ -133,6 +140,12 @@ def geometry(net):
             inds[i].append(l)
             sizes[l] = int(p)
             deg[l] = 1
+    for i, d in enumerate(net.get("dangle") or []):
+        if d:
+            l = f"d{i}"
+            inds[i].append(l)
+            sizes[l] = int(net.get("uniform") or d)
+            deg[l] = 1
     return inds, sizes, deg, parent, group
 
 
@@ -141,6 +154,8 @@ def make_data(rng, kind, shape):
         return rng.uniform(0.2, 1.0, size=shape)
     if kind == "pos0":
         return rng.uniform(0.2, 1.0, size=shape) * (rng.random(size=shape) > 0.25)
+    if kind == "posvar":
+        return np.exp(1.2 * rng.normal(size=shape))
     if kind == "signed":
         return rng.normal(size=shape)
     if kind == "complex":
@@ -210,6 +225,8 @@ def net_classes(net, deg, group=None):
     c = ["kind=" + net["kind"], f"n={net['n']}"]
     if any(d >= 3 for d in deg.values()):
         c.append("hyper")
+    if any(net.get("dangle") or []):
+        c.append("rank1-label")
     if any(code == 2 for code, _, _ in net["attach"]):
         c.append("forest")
     if net.get("exponent"):
@@ -316,8 +333,8 @@ def opt_classes(o):
 
 
 def nontrivial(net, deg, o):
-    return net["n"] >= 4 and (net["kind"] in ("signed", "complex") or any(d >= 3 for d in deg.values())
-                              or o["damping"] > 0 or o["update"] == "parallel" or o["init"] != "default" or o["diis"])
+    return net["n"] >= 4 and (net["kind"] in ("signed", "complex", "posvar") or any(d >= 3 for d in deg.values())
+                              or any(net.get("dangle") or []) or o["damping"] > 0 or o["update"] == "parallel" or o["init"] != "default" or o["diis"])
 
 
 def run_kwargs(flavour, o, tn, net, ctor_only=False):
@@ -436,7 +453,8 @@ def s_contract1(flavour):
     def strat(tier):
         @st.composite
         def s(draw):
-            net = draw(s_net(tier, hyper=flavour in ("hd1", "hv1"), uniform=flavour == "hv1", groups=flavour == "l1"))
+            net = draw(s_net(tier, hyper=flavour in ("hd1", "hv1"), uniform=flavour == "hv1", groups=flavour == "l1",
+                             kinds=KINDS_HYPER if flavour in ("hd1", "hv1") else KINDS))
             return {"net": net, "opts": draw(s_opts(flavour))}
 
         return s()
@@ -560,7 +578,8 @@ def run_contract2(flavour):
 @st.composite
 def s_marg1(draw, tier):
     flavour = draw(st.sampled_from(["hd1", "hd1", "hv1", "d1"]))
-    net = draw(s_net(tier, hyper=flavour != "d1", uniform=flavour == "hv1", min_n=2))
+    net = draw(s_net(tier, hyper=flavour != "d1", uniform=flavour == "hv1", min_n=2,
+                     kinds=KINDS_HYPER if flavour != "d1" else KINDS))
     return {"flavour": flavour, "net": net, "opts": draw(s_opts(flavour)),
             "route": draw(st.sampled_from(["object", "function"]))}
 
@@ -631,12 +650,22 @@ def run_marg1(case):
             one = bp_common.compute_index_marginal(tn, ix, messages)
             if not rel_err(np.asarray(one), got) <= 1e-12:
                 raise Violation("index-marginal-single-vs-all", flavour=flavour)
-        for i, (a, ii) in enumerate(arrs):
+        # tensors that carry a label of their own (rank-1 hyper edge) last: a failure there must not hide the others
+        order = sorted(range(len(arrs)), key=lambda i: any(deg[l] == 1 for l in arrs[i][1]))
+        for i in order:
+            a, ii = arrs[i]
             if not ii:
                 continue
             tid = tid_of(tn, i)
             t = tn.tensor_map[tid]
-            got = np.asarray(bp_common.compute_tensor_marginal(tn, tid, messages))
+            own = any(deg[l] == 1 for l in ii)
+            try:
+                got = np.asarray(bp_common.compute_tensor_marginal(tn, tid, messages))
+            except TypeError as exc:
+                if own and "empty" in str(exc):
+                    # product over the *other* tensors of a label that has no other tensor
+                    raise Violation("tensor-marginal-own-label-crash", flavour=flavour, exc="TypeError") from None
+                raise
             ref = einsum_value(ca, tuple(t.inds))
             ref = ref / np.sum(ref)
             if got.shape != ref.shape:
@@ -1215,7 +1244,7 @@ def s_sample(draw, tier):
         net = draw(s_net(tier, phys="all", max_n=6, kinds=KINDS_DENSE, exponents=(0.0,)))
         net["phys"] = [2] * net["n"]  # sample_d2bp draws from [0, 1]
     else:
-        net = draw(s_net(tier, hyper=True, uniform=flavour == "hv1", max_n=6, kinds=("pos", "pos", "pos0"),
+        net = draw(s_net(tier, hyper=True, uniform=flavour == "hv1", max_n=6, kinds=("pos", "pos", "pos0", "posvar"),
                          exponents=(0.0,)))
     return {"flavour": flavour, "net": net, "seed": draw(st.integers(0, 2 ** 31 - 1)),
             "damping": draw(st.sampled_from([0.0, 0.0, 0.3])), "local": draw(st.booleans()),
